@@ -459,8 +459,11 @@ def gen_op(rng, docs, weights, **kw):
         key = [[rng.choice(['d', 'd', 'd', 'a']), 1]]
         if rng.random() < 0.1:
             key.append([rng.choice(gen.KEYS), 1])          # compound: ignored by expiry
-        return {'op': 'create_index', 'key': key, 'unique': False, 'sparse': False,
-                'ttl': rng.choice([0, 1, 10, 10, 60, '5', 'abc', 1.5, 10])}
+        op = {'op': 'create_index', 'key': key, 'unique': False, 'sparse': False,
+              'ttl': rng.choice([0, 1, 10, 10, 60, 60, 3600, '5', 'abc', 1.5, 10])}
+        if rng.random() < 0.5:
+            op['name'] = rng.choice(['t1', 't2'])      # several TTL indexes over the same field
+        return op
     if k == 'insert_dated':
         r = rng.random()
         base = T0 + datetime.timedelta(seconds=rng.choice([-100, -11, -10, -9, -1, 0, 1, 50]),
@@ -478,7 +481,7 @@ def gen_op(rng, docs, weights, **kw):
             del d['d']
         return {'op': 'insert_one', 'doc': d}
     if k == 'drop_index':
-        return {'op': 'drop_index', 'name': '%s_1' % rng.choice(gen.KEYS + ['d'])}
+        return {'op': 'drop_index', 'name': rng.choice(['%s_1' % k for k in gen.KEYS + ['d', 'd']] + ['t1', 't2'])}
     if k in ('drop_indexes', 'index_info', 'drop'):
         return {'op': k}
     if k == 'clock':
@@ -559,4 +562,46 @@ def gen_focus_unique(rng):
                         'ordered': rng.random() < 0.5})
         else:
             ops.append({'op': 'insert_one', 'doc': doc(20 + i)})
+    return ops
+
+
+def gen_focus_ttl(rng):
+    """Focused TTL histories: a long-lived TTL index, dated documents, a read (an expiry pass),
+    then - without any write - a second or replacement TTL index with a shorter period and/or a
+    clock that stands still or moves backwards, then reads through several entry points."""
+    def read():
+        r = rng.random()
+        if r < 0.5:
+            return {'op': 'find', 'filter': {}, 'proj': None, 'sort': [], 'skip': 0, 'limit': 0, 'via': 'kwargs'}
+        if r < 0.75:
+            return {'op': 'count', 'filter': {}, 'skip': 0, 'limit': None}
+        return {'op': 'distinct', 'key': '_id', 'filter': {}}
+    t = rng.choice([0, 10, 100])
+    ops = [{'op': 'clock', 't': t * 1000000},
+           {'op': 'create_index', 'key': [['d', 1]], 'unique': False, 'sparse': False,
+            'ttl': rng.choice([1000, 3600]), 'name': 't1'}]
+    for i in range(1, rng.choice([2, 3, 4]) + 1):
+        age = rng.choice([0, 2, 8, 10, 50, 90])
+        ops.append({'op': 'insert_one', 'doc': {'_id': i, 'd': T0 + datetime.timedelta(seconds=t - age)}})
+    ops.append(read())
+    r = rng.random()
+    short = rng.choice([5, 10, 20])
+    if r < 0.4:
+        ops.append({'op': 'create_index', 'key': [['d', 1]], 'unique': False, 'sparse': False,
+                    'ttl': short, 'name': 't2'})
+    elif r < 0.8:
+        ops.append({'op': 'drop_index', 'name': 't1'})
+        ops.append({'op': 'create_index', 'key': [['d', 1]], 'unique': False, 'sparse': False,
+                    'ttl': short, 'name': 't1'})
+    else:
+        ops.append({'op': 'drop_indexes'})
+        ops.append({'op': 'create_index', 'key': [['d', 1]], 'unique': False, 'sparse': False,
+                    'ttl': short})
+    if rng.random() < 0.4:
+        ops.append({'op': 'clock', 't': (t - rng.choice([0, 1, 5])) * 1000000})
+    ops.append(read())
+    if rng.random() < 0.5:
+        ops.append({'op': 'update', 'filter': {'_id': 1}, 'update': {'$set': {'x': 1}}, 'multi': False,
+                    'upsert': False})
+        ops.append(read())
     return ops
